@@ -6,6 +6,7 @@ script (JSON string):
   dt          seconds, sgn +-1
   age         bool: state['age'] += 1.0 per step
   weight      bool: state['weight'] += 0.001 * state['temp']
+  dose        bool: state['dose'] += X + Y/2 (position-dependent IBM state)
   kills       {"<n>": [tags]}    kill living particles carrying one of the tags at event step n
   kill_pids   {"<n>": [pids]}
   deact/act   {"<n>": [tags]}    clear / set the active flag
@@ -46,6 +47,8 @@ class IBM:
             state["age"] = state["age"] + 1.0
         if s.get("weight"):
             state["weight"] = state["weight"] + 0.001 * state["temp"]
+        if s.get("dose"):      # exposure integral: depends on where the particle is after the move
+            state["dose"] = state["dose"] + state["X"] + 0.5 * state["Y"]
         tags = s.get("kills", {}).get(n)
         if tags:
             state["alive"] = state["alive"] & ~np.isin(state["tag"], tags)
